@@ -7,7 +7,7 @@ from typing import Dict
 from .. import cfg as cfgmod
 from .. import deps as depsmod
 from .. import facts, sqlexpr
-from ..index import AnalysisError, dotted_name, unparse
+from ..index import AnalysisError, dotted_name, unparse, inline_local_consts
 
 EXPLANATION = (
     "S1 join-type vocabulary: the set accepted by standardize_join_type is mapped by each back end (Pandas "
@@ -223,7 +223,8 @@ def _s3(program, res):
     res.analysed(pj)
     ok = False
     suffix = None
-    for c in ast.walk(pj.node):
+    pj_node = inline_local_consts(pj.node)
+    for c in ast.walk(pj_node):
         if isinstance(c, ast.Call) and isinstance(c.func, ast.Attribute) and c.func.attr == "merge":
             for kw in c.keywords:
                 if kw.arg == "suffixes" and isinstance(kw.value, ast.Tuple) and isinstance(kw.value.elts[1], ast.Constant):
@@ -234,13 +235,13 @@ def _s3(program, res):
                 res.fail_at("C16-S3", pj, "pandas-merge-sides", f"pd.merge(left={kws.get('left')}, right={kws.get('right')})", c)
     if suffix is None:
         raise AnalysisError("Pandas _natural_join_step: merge suffixes=('', <right suffix>) not found")
-    for st in ast.walk(pj.node):
+    for st in ast.walk(pj_node):
         if isinstance(st, ast.Assign) and isinstance(st.targets[0], ast.Subscript) and unparse(st.targets[0].value) == "res.loc":
             tgt = unparse(st.targets[0].slice).strip("()")
             val = unparse(st.value)
             if "is_null" in tgt and tgt.endswith(", c") and f"c + '{suffix}'" in val:
                 ok = True
-    isnull_src = [st for st in ast.walk(pj.node) if isinstance(st, ast.Assign) and unparse(st.targets[0]) == "is_null"]
+    isnull_src = [st for st in ast.walk(pj_node) if isinstance(st, ast.Assign) and unparse(st.targets[0]) == "is_null"]
     if ok and isnull_src and unparse(isnull_src[0].value) == "res[c].isnull()":
         res.ok("C16-S3", "Pandas: nulls of the left column are filled from the suffixed right twin")
     else:
